@@ -288,3 +288,86 @@ func VerifH_C11_Cycles() {
 	}
 	vrt.Assert(err == nil, "c11.cycles.acyclic-graph-compiles")
 }
+
+// VerifH_C11_IllFormed: ill-formed references of every kind the compiler resolves.  One
+// or two defects are planted into a valid two-module set; the compile must return an
+// error (no panic, no hang), under every map-iteration policy, and a set without
+// planted defect must compile.
+var c11Defects = []struct{ where, text string }{
+	{"body", "leaf d1 { type nosuchtype; }"},
+	{"body", "leaf d2 { type q:t; }"},
+	{"body", "container d3 { uses nosuchgrouping; }"},
+	{"body", "container d4 { uses q:g; }"},
+	{"body", "leaf d5 { if-feature nosuchfeature; type string; }"},
+	{"body", "identity d6 { base nosuchidentity; }"},
+	{"body", "leaf d7 { type identityref { base nosuchidentity; } }"},
+	{"head", "import nosuchmodule { prefix nm; }"},
+	{"head", "include nosuchsubmodule;"},
+	{"body", "augment /l:nosuchnode { leaf d10 { type string; } }"},
+	{"body", "deviation /l:nosuchnode { deviate not-supported; }"},
+	{"body", "list d12 { key nosuchleaf; leaf k { type string; } }"},
+	{"body", "list d13 { key k; unique nosuchleaf; leaf k { type string; } }"},
+	{"body", "leaf d14 { type uint8; default 300; }"},
+	{"body", "container d15 { uses l:g { refine nosuchnode { default 'x'; } } }"},
+	{"body", "leaf d16 { type string; must \"../a +\"; }"},
+	{"body", "leaf d17 { type leafref { path \"/l:c/[\"; } }"},
+	{"body", "leaf d18 { type enumeration; }"},
+	{"body", "leaf d19 { type union; }"},
+	{"body", "leaf d20 { type decimal64; }"},
+	{"body", "choice d21 { default nosuchcase; case x { leaf xx { type string; } } }"},
+	{"body", "leaf d22 { type string { range '1..2'; } }"},
+	{"body", "typedef d23 { type uint8 { range '5..1'; } }"},
+	{"body", "leaf a { type string; }"}, // redefinition of a sibling
+	{"body", "leaf d25 { type l:nosuchtypedef; }"},
+	{"body", "container d26 { leaf x { type string; config true; } config false; }"},
+}
+
+func VerifH_C11_IllFormed() {
+	n := len(c11Defects)
+	first := vrt.Choice("defect", n+1) // n = none
+	second := n
+	if first < n && vrt.Param("pairs", 0) == 1 && vrt.Bool("two") {
+		second = vrt.Choice("second", n)
+		vrt.Assume(second != first)
+	}
+	policy := vrt.Choice("map-order-policy", 6)
+	head, body := "", ""
+	for _, k := range []int{first, second} {
+		if k < n {
+			if c11Defects[k].where == "head" {
+				head += c11Defects[k].text + " "
+			} else {
+				body += c11Defects[k].text + " "
+			}
+		}
+	}
+	texts := map[string]string{
+		"lib": "module lib { namespace 'urn:l'; prefix l; grouping g { leaf gl { type string; } } typedef t { type uint8; } container c { leaf cl { type string; } } }",
+		"app": "module app { namespace 'urn:a'; prefix a; import lib { prefix l; } " + head + "leaf a { type l:t; } container u { uses l:g; } " + body + "}",
+	}
+	vrt.MapOrder(0)
+	var err0, err error
+	ok0, _ := vrt.NoPanic(func() {
+		_, err0 = compileTexts(texts, featSet{}, nil)
+	})
+	vrt.MapOrder(policy)
+	ok, ptxt := vrt.NoPanic(func() {
+		_, err = compileTexts(texts, featSet{}, nil)
+	})
+	vrt.MapOrder(0)
+	vrt.Reach("c11.illformed")
+	if !ok {
+		vrt.Observe("panic", first, second, ptxt)
+	}
+	vrt.Assert(ok && ok0, "c11.illformed.no-panic")
+	if !ok || !ok0 {
+		return
+	}
+	vrt.Observe("verdict", first, second, err == nil)
+	// which ill-formed references are errors is the business of C12-C15; here: the
+	// verdict does not depend on the iteration order, and the defect-free set compiles
+	vrt.Assert((err == nil) == (err0 == nil), "c11.illformed.same-verdict-under-every-map-order")
+	if first == n {
+		vrt.Assert(err == nil, "c11.illformed.defect-free-set-compiles")
+	}
+}
